@@ -23,13 +23,15 @@ def one(d):
         if r.returncode:
             return d, 'patch does not apply to HEAD any more', m
         for c in todo:
-            env = dict(os.environ, VERIF_REPO=wt, VERIF_OUT=out, VERIF_WORKERS='6')
+            env = dict(os.environ, VERIF_REPO=wt, VERIF_OUT=out, VERIF_WORKERS=os.environ.get('VERIF_WORKERS', '6'), VERIF_CAP_S=os.environ.get('VERIF_CAP_S', '7200'))
             r = subprocess.run([ROOT + '/check', c, '--tier', 'quick'], capture_output=True, text=True, env=env)
             first = next((l.strip()[:200] for l in r.stdout.splitlines() if 'violation sig' in l), '')
             if r.returncode == 1 and 'VIOLATION' in r.stdout:
                 m['caught'] = sorted(set(m.get('caught', []) + [c]))
                 m['missed'] = [x for x in m.get('missed', []) if x != c]
                 m.setdefault('recheck', {})[c] = 'caught: ' + first
+            elif r.returncode == 0 and 'NOT EXHAUSTIVE' in r.stdout:
+                m.setdefault('recheck', {})[c] = 'capped: the run hit its wall-clock cap before finishing (loaded machine); not judged, previous state kept'
             else:
                 m['missed'] = sorted(set(m.get('missed', []) + [c]))
                 m['caught'] = [x for x in m.get('caught', []) if x != c]
